@@ -53,6 +53,8 @@ and `Ref.eval`/`Ref.runProgram` themselves:
 * `compile_correct_on_F2`       — `CompileCorrect` restricted to F2: `defn`/`fn` of fixed arity at any
                                   depth, closures capturing locals, calls by name, recursion,
                                   functions as values.
+* `segment_lemma_Fx`, `compile_correct_on_F2x` — F2 with `break`/`continue` (plain or labelled) in
+                                  top-level `for` loops: the simulation gets a non-landing outcome.
 
 `compile_correct_partial` (below) says what is proved of the semantic statement and names
 the unproved remainder (`CompileCorrectOutsideProved`).
@@ -64,6 +66,7 @@ import ZygoVerif.Proofs.SimF0cTop
 import ZygoVerif.Proofs.SimFvTop
 import ZygoVerif.Proofs.SimFcTop
 import ZygoVerif.Proofs.SimF2Top
+import ZygoVerif.Proofs.SimF2BrkFor
 namespace ZygoVerif.C02
 open ZygoVerif.Core ZygoVerif.VM
 
@@ -738,7 +741,8 @@ example : ∃ fuel' o, obsOfRef (Ref.runProgram 8 demoFcSmall Ref.initSt).1 = so
 /-! ## F2 — user functions: `defn`, `fn`, closures, calls by name, recursion
 
 A program text of F2 is a list of top-level forms of `Ff true ""`, where `Ff fnOk self` is: literals,
-symbols, `def`, `set`, `begin`, `cond`, calls `(h a₁ … aₙ)`, and — in positions compiled when the
+symbols, `def`, `set`, `begin`, `cond`, `and`, `or`, non-empty `newScope`, `letseq`, `let` with pairwise
+distinct names, array literals, `for` loops (without `break`/`continue`), calls `(h a₁ … aₙ)`, and — in positions compiled when the
 text is loaded (`fnOk`: everywhere but inside the operands of a call) — `(fn [p₁ … pₙ] body…)` and
 `(defn name [p₁ … pₙ] body…)`, at top level or nested in function bodies to any depth: fixed arity,
 distinct parameters that are not lazy (`#p`) and not builtin names, a non-empty body in the fragment.
@@ -888,6 +892,38 @@ def demoF2Nested : List Expr :=
    .def_ "f" (.call (.sym "outer") [.int 1]), .def_ "g" (.call (.sym "outer") [.int 2]),
    .call (.sym "trace") [.call (.sym "f") [.int 10]], .call (.sym "g") [.int 20]]
 
+/-- `(defn mkacc [start] (let [total start] (fn [d] (set total (+ total d)) total))) (def acc (mkacc 10)) (acc 5)
+(trace (acc 7))`: a closure over a `let`-bound variable; `(defn f [xs] (and (not (== (len xs) 0)) (first xs)))
+(trace (f [4 5])) (f [])`: `and`, array literals; `(defn g [a] (letseq [b (+ a 1) c (* b 2)] (newScope (def a c) [a b c])))
+(g 1)`: `letseq`, `newScope` inside a function -/
+def demoF2Acc : List Expr :=
+  [.defn "mkacc" ["start"] none [.let_ false [("total", .sym "start")]
+      [.fn ["d"] none [.set_ "total" (.call (.sym "+") [.sym "total", .sym "d"]), .sym "total"]]],
+   .def_ "acc" (.call (.sym "mkacc") [.int 10]), .call (.sym "acc") [.int 5], .call (.sym "trace") [.call (.sym "acc") [.int 7]]]
+def demoF2And : List Expr :=
+  [.defn "f" ["xs"] none [.and_ [.call (.sym "not") [.call (.sym "==") [.call (.sym "len") [.sym "xs"], .int 0]],
+      .call (.sym "first") [.sym "xs"]]],
+   .call (.sym "trace") [.call (.sym "f") [.arr [.int 4, .int 5]]], .call (.sym "f") [.arr []]]
+def demoF2Seq : List Expr :=
+  [.defn "g" ["a"] none [.let_ true [("b", .call (.sym "+") [.sym "a", .int 1]), ("c", .call (.sym "*") [.sym "b", .int 2])]
+      [.newScope [.def_ "a" (.sym "c"), .arr [.sym "a", .sym "b", .sym "c"]]]],
+   .call (.sym "g") [.int 1]]
+
+/-- `(defn sum [n] (def s 0) (for [(def i 0) (< i n) (set i (+ i 1))] (set s (+ s i))) s) (trace (sum 5))`: a loop in a
+function body -/
+def demoF2Loop : List Expr :=
+  [.defn "sum" ["n"] none [.def_ "s" (.int 0),
+      .for_ none (.def_ "i" (.int 0)) (.call (.sym "<") [.sym "i", .sym "n"]) (.set_ "i" (.call (.sym "+") [.sym "i", .int 1]))
+        [.set_ "s" (.call (.sym "+") [.sym "s", .sym "i"])], .sym "s"],
+   .call (.sym "trace") [.call (.sym "sum") [.int 5]]]
+
+macro "ft_mem2" d:ident : tactic =>
+  `(tactic| simp [$d:ident, FtList, FfList, Ff, FaList, FfArms, FfBinds, okParam, okName, okBinder, okSym, okHead, foBuiltins, hoNames])
+
+example : FtList demoF2Acc = true := by ft_mem2 demoF2Acc
+example : FtList demoF2And = true := by ft_mem2 demoF2And
+example : FtList demoF2Seq = true := by ft_mem2 demoF2Seq
+example : FtList demoF2Loop = true := by ft_mem2 demoF2Loop
 example : FtList demoF2Scope = true := by ft_mem demoF2Scope
 example : FtList demoF2Val = true := by ft_mem demoF2Val
 example : FtList demoF2Arity = true := by ft_mem demoF2Arity
@@ -963,16 +999,130 @@ example : ∃ fuel' o, obsOfRef (Ref.runProgram 16 demoF2Clo Ref.initSt).1 = som
 
 /-! ## What is proved of `CompileCorrect`, and what is missing -/
 
-/-- the programs covered by a theorem: every top-level form in Fv, or every top-level form in Fc,
-or every top-level form in F2 -/
-def InProvedFragment (p : List Expr) : Prop := FvList p = true ∨ FcList p = true ∨ FtList p = true
+/-! ## F2 with `break` and `continue` -/
 
-/-- **The part of `CompileCorrect` that is NOT proved**: programs that are in none of Fv, Fc, F2 —
-i.e. using user functions together with `let`/`and`/`or`/`for`/array literals (F2 has user
-functions but not yet those forms; Fc has those forms but only builtin calls), a `fn`/`defn` inside
+/-- **Segment lemma with non-local exits**: a statement list of Fx (F2 plus `break`/`continue` of the
+enclosing loops `Γ`) compiled in place either lands with its value (as `segment_lemma_Ff`), fails with the
+reference trace, or — when the reference evaluator yields `brk l`/`cont l` — has jumped to the
+`clearMark` resp. the `continue` label of the loop `l` names, the scopes opened inside that loop
+popped, the data stack holding only values above the loop's mark (`JumpedF`). -/
+theorem segment_lemma_Fx (ls : List (Option String)) (es : List Expr) (hne : es ≠ []) (he : FxList ls es = true)
+    (isFn : Nat → Bool) (c : Ctx) (hfn : c.funcname = "") (gs : GS) (r : (List Instr × Bool) × GS)
+    (hc : (compileBegin isFn c es).run gs = .ok r) (Γ : List LCtx) (hls : Γ.map (·.label) = ls) (hg : GsOk Γ gs)
+    (m : Nat → Nat) (s : St) (rs : Ref.St) (env : Nat)
+    (pre post : List Instr) (hrel : RelF m s rs env) (hgen : GenOk gs r.2 s) (hctx : CtxF Γ c.scopes s rs)
+    (hlf : LoopsFinal r.2 s) (hlo : LsOut pre gs.loops.length r.2.loops.length) (hseg : Seg s pre r.1.1 post)
+    (n : Nat) : SimX r.1.1 Γ m s rs env (Ref.evalBegin n es env rs) :=
+  segment_Fx_begin ls es hne he isFn c hfn gs r hc Γ hls hg m s rs env pre post hrel hgen hctx hlf hlo hseg n
+
+/-- **`CompileCorrect` for F2 with `break`/`continue`**: program texts whose top-level forms are F2
+forms or `for` loops (also under `begin`/`cond`/`let`/`letseq`/`newScope`) that leave a loop —
+the innermost or a labelled enclosing one — by `break`, or start its next iteration by `continue`. -/
+theorem compile_correct_on_F2x : CompileCorrectOn (fun p => FxTop p = true) := by
+  intro p hp hwf fuel o ho
+  cases p with
+  | nil => exact compile_correct_on_F0c [] rfl hwf fuel o ho
+  | cons e es =>
+    obtain ⟨N, hN⟩ := runText_Fx id VM.initSt Ref.initSt (e :: es) (by simp) hp atRest_initSt rfl rfl
+      (fun l hl => by cases hl) (relF_initSt id) fuel
+    refine ⟨N, ?_⟩
+    have h := hN N (Nat.le_refl _)
+    unfold Ref.runProgram at ho
+    cases hres : Ref.evalBegin fuel (e :: es) 0 { Ref.initSt with trace := [] } with
+    | ok v rs' =>
+      rw [hres] at h
+      simp only [hres] at ho
+      obtain ⟨sf, d, hout⟩ := h
+      rw [hout]; exact ho
+    | err rs' =>
+      rw [hres] at h
+      simp only [hres] at ho
+      obtain ⟨sf, d, hout⟩ := h
+      rw [hout]; exact ho
+    | timeout => simp only [hres] at ho; cases ho
+    | brk l rs' => rw [hres] at h; exact h.elim
+    | cont l rs' => rw [hres] at h; exact h.elim
+
+macro "fx_mem" d:ident : tactic =>
+  `(tactic| simp [$d:ident, FxTop, FxList, Fx, FxArms, lblOk, FtList, FfList, Ff, FaList, FfArms, FfBinds, okParam, okName, okBinder,
+      okSym, okHead, foBuiltins, hoNames])
+
+/-- `(def s 0) (for [(def i 0) (< i 9) (set i (+ i 1))] (cond (== i 1) (break) nil) (set s (+ s 5))) s` -/
+def demoBrk : List Expr :=
+  [.def_ "s" (.int 0),
+   .for_ none (.def_ "i" (.int 0)) (.call (.sym "<") [.sym "i", .int 9]) (.set_ "i" (.call (.sym "+") [.sym "i", .int 1]))
+     [.cond [(.call (.sym "==") [.sym "i", .int 1], .break_ none)] .nilLit, .set_ "s" (.call (.sym "+") [.sym "s", .int 5])],
+   .sym "s"]
+
+/-- `(for [(def i 0) (< i 4) (set i (+ i 1))] (cond (== i 1) (continue) nil) (trace i))` -/
+def demoCont : List Expr :=
+  [.for_ none (.def_ "i" (.int 0)) (.call (.sym "<") [.sym "i", .int 4]) (.set_ "i" (.call (.sym "+") [.sym "i", .int 1]))
+     [.cond [(.call (.sym "==") [.sym "i", .int 1], .continue_ none)] .nilLit, .call (.sym "trace") [.sym "i"]]]
+
+/-- `(for outer: [(def i 0) (< i 3) (set i (+ i 1))] (for [(def j 0) (< j 3) (set j (+ j 1))]
+(cond (== j 1) (continue outer:) nil) (cond (== i 2) (break outer:) nil) (trace (+ (* i 10) j))))`: labelled
+exits out of the inner loop -/
+def demoOuter : List Expr :=
+  [.for_ (some "outer") (.def_ "i" (.int 0)) (.call (.sym "<") [.sym "i", .int 3]) (.set_ "i" (.call (.sym "+") [.sym "i", .int 1]))
+     [.for_ none (.def_ "j" (.int 0)) (.call (.sym "<") [.sym "j", .int 3]) (.set_ "j" (.call (.sym "+") [.sym "j", .int 1]))
+       [.cond [(.call (.sym "==") [.sym "j", .int 1], .continue_ (some "outer"))] .nilLit,
+        .cond [(.call (.sym "==") [.sym "i", .int 2], .break_ (some "outer"))] .nilLit,
+        .call (.sym "trace") [.call (.sym "+") [.call (.sym "*") [.sym "i", .int 10], .sym "j"]]]]]
+
+/-- `(defn mk [n] (fn [] n)) (def fs []) (for [(def i 0) (< i 5) (set i (+ i 1))] (let [k (* i i)]
+(cond (> k 5) (break) nil) (set fs (append fs (mk k))))) (trace (len fs))`: `break` out of a `let` inside
+the loop (one scope popped by the `break`), closures made in the loop -/
+def demoBrkLet : List Expr :=
+  [.defn "mk" ["n"] none [.fn [] none [.sym "n"]],
+   .def_ "fs" (.arr []),
+   .for_ none (.def_ "i" (.int 0)) (.call (.sym "<") [.sym "i", .int 5]) (.set_ "i" (.call (.sym "+") [.sym "i", .int 1]))
+     [.let_ false [("k", .call (.sym "*") [.sym "i", .sym "i"])]
+       [.cond [(.call (.sym ">") [.sym "k", .int 5], .break_ none)] .nilLit,
+        .set_ "fs" (.call (.sym "append") [.sym "fs", .call (.sym "mk") [.sym "k"]])]],
+   .call (.sym "trace") [.call (.sym "len") [.sym "fs"]]]
+
+theorem demoBrk_in : FxTop demoBrk = true := by fx_mem demoBrk
+example : FxTop demoCont = true := by fx_mem demoCont
+example : FxTop demoOuter = true := by fx_mem demoOuter
+example : FxTop demoBrkLet = true := by fx_mem demoBrkLet
+/-- a `break` outside every loop is not in the fragment (nor well-formed) -/
+example : FxTop [.break_ none] = false := by simp [FxTop, FxList, Fx, lblOk]
+
+set_option maxRecDepth 8000 in
+/-- the reference evaluator: the body runs once, the `break` ends the loop -/
+theorem demoBrk_ref :
+    refClass (Ref.evalBegin 12 demoBrk 0 { Ref.initSt with trace := [] }) = some (some (.int 5#64)) := by
+  have trb : ∀ b : Bool, truthy (.bool b) = b := fun _ => rfl
+  simp [demoBrk, Ref.evalBegin, Ref.eval, Ref.evalArgs, Ref.applyFn, Ref.bindParams, Ref.newFrame, Ref.evalCond, Ref.loop,
+    Ref.define, Ref.setVar, Ref.lookup, Ref.lookupIn, Ref.initSt, Ref.assocSet, Ref.globalNames, coreBuiltins,
+    refClass, List.lookup, prim, isFunction, allInts, intOfLit, Ref.isLazyParam, rebindOk, tyOf, isCmp, compareVals,
+    cmpResult, trb]
+
+/-- an instance of `compile_correct_on_F2x` with a real outcome on the reference side (value 5: one
+iteration, then `break`); through the harness the text prints `ok 5 T[]` -/
+example : ∃ fuel' o, obsOfRef (Ref.runProgram 12 demoBrk Ref.initSt).1 = some o
+    ∧ obsOfVM (VM.runText fuel' demoBrk VM.initSt).1 = some o := by
+  have h := demoBrk_ref
+  cases hres : Ref.evalBegin 12 demoBrk 0 { Ref.initSt with trace := [] } with
+  | ok v rs' =>
+    have ho : obsOfRef (Ref.runProgram 12 demoBrk Ref.initSt).1 = some (.ok (pr rs'.heap v) rs'.trace) := by
+      unfold Ref.runProgram; simp only [hres]; rfl
+    obtain ⟨f, hf⟩ := compile_correct_on_F2x demoBrk demoBrk_in (by decide) 12 _ ho
+    exact ⟨f, _, ho, hf⟩
+  | err rs' => rw [hres] at h; simp [refClass] at h
+  | timeout => rw [hres] at h; simp [refClass] at h
+  | brk l rs' => rw [hres] at h; simp [refClass] at h
+  | cont l rs' => rw [hres] at h; simp [refClass] at h
+
+/-- the programs covered by a theorem: every top-level form in Fv, or every top-level form in Fc,
+or every top-level form in F2, or every top-level form in Fx (F2 with `break`/`continue` in top-level loops) -/
+def InProvedFragment (p : List Expr) : Prop := FvList p = true ∨ FcList p = true ∨ FtList p = true ∨ FxTop p = true
+
+/-- **The part of `CompileCorrect` that is NOT proved**: programs that are in none of Fv, Fc, F2, Fx —
+i.e. using a `fn`/`defn` inside
 an operand of a call (compiled at run time), with a rest parameter, lazy parameters or a self call
 in a directly compiled position, `map`/`apply`/`force`/`substitute`, computed call heads,
-`break`/`continue` (and so loops that use them), an empty `newScope`, or (together with calls or
+`break`/`continue` inside a function body, an empty `newScope`, or (together with calls or
 array literals) a binder that re-uses a builtin name. Held by the 3-way `eval` correspondence on
 every run, not by a theorem. -/
 def CompileCorrectOutsideProved : Prop := CompileCorrectOn (fun p => ¬ InProvedFragment p)
@@ -989,17 +1139,20 @@ def CompileCorrectOutsideProved : Prop := CompileCorrectOn (fun p => ¬ InProved
      in nested runs, array literals, and `for` loops without `break`/`continue` — `compile_correct_on_Fc`;
    * F2 — `defn`/`fn` of fixed arity at top level and nested, closures capturing (and assigning to)
      locals of the functions they were made in, calls of user functions by name (also through
-     variables: functions are values), recursion, first-order builtins, `def`/`set`/`begin`/`cond`;
+     variables: functions are values), recursion, first-order builtins, `def`/`set`/`begin`/`cond`/
+     `and`/`or`/`newScope`/`letseq`/`let`/array literals/`for` loops;
      values related modulo the numbering of closures — `compile_correct_on_F2`;
+   * Fx — F2 plus `break`/`continue` (plain or labelled) of the enclosing `for` loops in top-level code,
+     under `begin`/`cond`/`let`/`letseq`/`newScope`/nested loop bodies: a non-landing outcome of the
+     simulation (`Sim.SimX`, `Sim.JumpedF`) — `compile_correct_on_F2x`;
    * for the effect-free sub-fragment F0c with explicit fuel on both sides — `compile_correct_F0c`;
 2. the full `CompileCorrect` follows from its restriction to the remaining programs
    (`CompileCorrectOutsideProved`, the precise unproved remainder);
 3. the layout half for `begin`/`cond`/`and`/`or` as before (and `gen_for_layout` for loops).
 
 MISSING (held by the `eval` correspondence only): `CompileCorrectOutsideProved` — `break`/`continue`
-(the rest of F1; generator-side groundwork in Proofs/SimFbGen.lean), the rest of F2 (the Fc forms
-next to user functions, `fn`/`defn` inside operands, varargs), F3 (self tail calls, `map`/`apply`,
-lazy parameters). -/
+inside function bodies (the loop contexts of `Sim.CtxF` are stated for top-level code), the rest of F2
+(`fn`/`defn` inside operands, varargs), F3 (self tail calls, `map`/`apply`, lazy parameters). -/
 theorem compile_correct_partial :
     CompileCorrectOn InProvedFragment
     ∧ (CompileCorrectOutsideProved → CompileCorrect)
@@ -1010,10 +1163,11 @@ theorem compile_correct_partial :
         ∃ pre, asmSC isOr cs = pre ++ asmSC isOr (cs.drop i)) := by
   have hin : CompileCorrectOn InProvedFragment := by
     intro p hp hwf
-    rcases hp with hp | hp | hp
+    rcases hp with hp | hp | hp | hp
     · exact compile_correct_on_Fv p hp hwf
     · exact compile_correct_on_Fc p hp hwf
     · exact compile_correct_on_F2 p hp hwf
+    · exact compile_correct_on_F2x p hp hwf
   refine ⟨hin, fun hout p hwf => ?_, gen_begin_pops_between,
     fun arms dflt i _ => asmCond_suffix arms dflt i, asmSC_suffix⟩
   by_cases h : InProvedFragment p
